@@ -23,7 +23,7 @@ EXPLANATION = (
     "test a data value for truthiness); R-sortby-used (results of the pure sort_by / sort are used)."
 )
 NOT_DECIDED = "disjointness of groups under arbitrary update(); equality with a reference model along concrete histories (exploration / model checking)"
-FLOORS = {"R-comutation": 7, "R-append-absent": 14, "R-value-truthiness": 2, "R-nan-aware-lookup": 3, "R-no-raw-mutators": 1, "R-sortby-used": 5}
+FLOORS = {"R-comutation": 7, "R-append-absent": 14, "R-value-truthiness": 2, "R-nan-aware-lookup": 3, "R-no-raw-mutators": 1, "R-sortby-used": 4}
 
 RAW = {"insert", "extend", "reverse", "clear", "__setitem__", "__delitem__", "popitem"}
 
@@ -116,15 +116,57 @@ def rule_nan_aware(ctx):
                     ctx.ob("R-nan-aware-lookup", construct(fi, f"`{unparse(c)}` compares two values without is_equal"), False, loc(fi, c),
                            "numpy.nan != numpy.nan: two missing values are treated as distinct, the group is merged into itself and removed")
     fi = ctx.repo.find_function(f"{F_GL}::is_equal")
-    txt = unparse(fi.node)
-    both = any(
-        isinstance(n, ast.BoolOp) and isinstance(n.op, ast.And)
-        and sum(1 for v in n.values if isinstance(v, ast.Call) and call_name(v) in ("isna", "isnull")) == 2
-        for n in ast.walk(fi.node)
-    )
-    eq = any(isinstance(n, ast.Compare) and isinstance(n.ops[0], ast.Eq) for n in ast.walk(fi.node))
-    ctx.ob("R-nan-aware-lookup", construct(fi, "a == b, or both missing"), both and eq, loc(fi),
-           "" if (both and eq) else "is_equal must be `a == b or (isna(a) and isna(b))`")
+    # the function as a decision tree (normal form of acsa/equiv.py): every leaf returns an expression
+    # under the tests on its path; its truth value must be  (a == b) or (isna(a) and isna(b))
+    from ..equiv import canon
+    from ..exprs import p_and, p_atom, p_const, p_equiv, p_not, p_or, p_show, to_prop
+
+    tree = canon(fi.node)
+    pa, pb = (fi.params + ["a", "b"])[:2]
+    others = {}
+
+    def classify(e):
+        t = unparse(e).replace(" ", "")
+        if t in (f"{pa}=={pb}", f"{pb}=={pa}"):
+            return "EQ"
+        if t in (f"{pa}!={pb}", f"{pb}!={pa}"):
+            return p_not(p_atom("EQ"))
+        for nm, atom in ((pa, "NA_A"), (pb, "NA_B")):
+            if t in (f"isna({nm})", f"isnull({nm})", f"{nm}!={nm}"):
+                return atom
+            if t in (f"notna({nm})", f"notnull({nm})"):
+                return p_not(p_atom(atom))
+        others.setdefault(t, f"OTHER_{len(others)}")
+        return others[t]
+
+    def leaves(stmts, conds):
+        out = []
+        for i, st in enumerate(stmts):
+            if isinstance(st, ast.If):
+                t = to_prop(st.test, classify)
+                out += leaves(st.body, conds + [t])
+                out += leaves(st.orelse + stmts[i + 1:], conds + [p_not(t)])
+                return out
+            if isinstance(st, ast.Return):
+                v = st.value if st.value is not None else ast.Constant(value=False)
+                out.append((conds, to_prop(v, classify)))
+                return out
+            if isinstance(st, (ast.Pass, ast.Expr)):
+                continue
+            return [(conds, None)]  # a statement the tree interpretation does not cover
+        out.append((conds, p_const(False)))
+        return out
+
+    lv = leaves(tree.body, [])
+    if any(v is None or any(c is None for c in cs) for cs, v in lv):
+        ctx.ob("R-nan-aware-lookup", construct(fi, "a == b, or both missing"), None, loc(fi), "is_equal is not a tree of tests and returns: not decided")
+    else:
+        got = p_or(*[p_and(*(cs + [v])) for cs, v in lv]) if lv else p_const(False)
+        want = p_or(p_atom("EQ"), p_and(p_atom("NA_A"), p_atom("NA_B")))
+        diff = p_equiv(got, want)
+        inv = {v: k for k, v in others.items()}
+        ctx.ob("R-nan-aware-lookup", construct(fi, "a == b, or both missing"), diff is None, loc(fi),
+               "" if diff is None else f"is_equal differs from `a == b or (isna(a) and isna(b))` when {({inv.get(k, k): v for k, v in diff.items()})}: e.g. 1 and 1.0, or a Python float and a numpy.float64, stop being the same value")
 
 
 def rule_sortby_used(ctx):
@@ -238,6 +280,7 @@ MUTANTS = [
     M("group guards with != instead of is_equal", [(F_GL, "        if not is_equal(discarded, kept):\n            # checking that those values exist in the list", "        if discarded != kept:\n            # checking that those values exist in the list")], "R-nan-aware-lookup", "GroupedList.group"),
     M("get_group falls back when the leader found is falsy", [(F_GL, "        if len(found) > 0:\n            return found[0]\n\n        return value", "        return (found[0] if len(found) > 0 else None) or value")], "R-value-truthiness", "get_group"),
     M("sort() keeps only str and float keys", [(F_GL, "        keys_float = [key for key in self if not isinstance(key, str)]", "        keys_float = [key for key in self if isinstance(key, float)]")], "R-sortby-used", "sort()"),
+    M("is_equal refuses values of different types", [(F_GL, "    # default equality\n    equal = a == b\n", "    if type(a) is not type(b):\n        return False\n    # default equality\n    equal = a == b\n")], "R-nan-aware-lookup", "a == b, or both missing"),
     M("raw insert on an order", [(F_QUAL, "                    order.append(self.str_nan)\n                    self.values_orders.update({feature: order})\n\n        # filling up NaNs", "                    order.insert(0, self.str_nan)\n                    self.values_orders.update({feature: order})\n\n        # filling up NaNs")], "R-no-raw-mutators", quick=True),
     M("sort_by result discarded in CategoricalDiscretizer", [(F_QUAL, "            self.values_orders.update({feature: order.sort_by(new_order)})", "            order.sort_by(new_order)\n            self.values_orders.update({feature: order})")], "R-sortby-used", "CategoricalDiscretizer.fit"),
     M("get_group tests the leader's truthiness in the comprehension", [(F_GL, "            if any(is_equal(value, elt) for elt in values)\n        ]", "            if any(elt for elt in values if is_equal(value, elt))\n        ]")], "R-value-truthiness", "get_group"),
